@@ -622,7 +622,7 @@ def gen_history(rng, version, n, persist=False, ota=True, sleep=True, malformed=
         elif kind == "wake":
             node = known_node()
             sub = internal.I_PRE_SLEEP_NOTIFICATION if version >= "2.2" else internal.I_HEARTBEAT_RESPONSE
-            hist.append(line(node, 255, mt.internal, 0, sub, str(rng.randrange(1000))))
+            hist.append(line(node, 255, mt.internal, 0, sub, wake_payload(rng)))
             if node in sym.nodes and sym.nodes[node]["children"]:
                 sym.nodes[node]["sleep"] = True
         elif kind == "ctl_set":
@@ -705,6 +705,13 @@ def separator_value_burst(rng, version, hist):
     return out[:pos] + script + out[pos:]
 
 
+def wake_payload(rng):
+    """what a node puts into its heartbeat response / pre-sleep notification: a counter or a duration in ms,
+    any integer including 0"""
+    return rng.choice(["0", "0", "1", "7", "500", str(rng.randrange(1000)), str(rng.randrange(1000)), "65535",
+                       "86400000", "4294967295"])
+
+
 def pending_pair_burst(rng, version, hist):
     """Weave one scripted smart-sleep episode into a history (protocol >= 2.0): a dimmer child reports two
     value types, the node announces sleep, the controller sets BOTH types, the node then reports only one of
@@ -714,7 +721,7 @@ def pending_pair_burst(rng, version, hist):
         return hist
     node = rng.choice([1, 2, 7, 42])
     child = rng.choice([0, 1, 5])
-    wake = f"{node};255;3;0;{32 if version == '2.2' else 22};{rng.randrange(1000)}\n"
+    wake = f"{node};255;3;0;{32 if version == '2.2' else 22};{wake_payload(rng)}\n"
     a, b = rng.choice([(2, 3), (3, 2)])
     val = {2: lambda: rng.choice(["0", "1"]), 3: lambda: str(rng.randrange(101))}
     first = {2: val[2](), 3: val[3]()}
